@@ -35,6 +35,18 @@ for p in props:
                  "integer promotion), and is invisible when the same source is compiled -O0 / in the default variant; (m) behaviour that is wrong only for inputs at least 4 operations / 64 bytes / 3 nesting "
                  "levels / 3 participants away from anything the existing tests and the obvious small cases reach.  State in the README which letter each change is, and why small exhaustive enumeration "
                  "(all histories of up to 5 operations over 3 keys, all inputs of up to 4 symbols, 2 threads with 2 preemptions) would NOT find it.  ") % rnd
+    if rnd >= 6:
+        focus = ("ROUND %d FOCUS (this overrides the category list further down).  Five rounds have been through off-by-ones, reordered updates, refusal paths, second lives, rarely used entry points, "
+                 "two-thread orderings, wrong-answer-with-intact-invariants, optimiser / build-variant effects and far-away inputs.  Wanted now: (n) RE-ENTRANCY - a user callback the property's mechanism "
+                 "invokes (destructor, comparator, hash / equality function, task function, traversal or code-point callback, log writer, at-exit callback, allocator) legitimately calls back into the same "
+                 "object or module while the operation is in progress, and the library's state at that moment is not what the documentation allows the callback to rely on; (o) DEGENERATE BUT LEGAL "
+                 "CONFIGURATIONS - a capacity / limit / element size / count parameter of 0 or 1 or its maximum, an empty key / value / string / document, an optional argument left NULL, combined with a "
+                 "LATER perfectly normal operation (the degenerate call itself may well succeed); (p) A SHARED HELPER OUTSIDE THE ANCHORED FILES - change a utility the anchored module calls (byte cursor / "
+                 "byte buf helpers, array list, string, math, clock, error handling / thread-local last error, allocator wrappers, linked list, hash table under a cache) so that the helper's own tests still "
+                 "pass and only the way the anchored module uses it breaks the property; (q) DRIFT - state that is right after every single operation but drifts over many (a counter that wraps or saturates, "
+                 "a garbage / tombstone count, a growth policy, a free list, an index never reset, a high-water mark) so that the property fails only after 20 or more operations of a repeating pattern.  "
+                 "Use two different letters for your two changes, state them in the README, and say why exhaustive enumeration of all histories of up to 6 operations / all inputs of up to 5 symbols / 2-3 "
+                 "threads with 2 preemptions would NOT find it.  ") % rnd
     t += EXTRA % dict(rnd=rnd, n=len(prev), prev="\n".join(prev), id=pid, commit=commit, focus=focus)
     open(out + "/PROMPT.txt", "w").write(t)
 print("ok")
